@@ -463,8 +463,8 @@ def run_roundtrip(ctx, gd):
     kw = {}
     if k % 3 == 1:
         kw["prefix"] = ("L", "V", "u_", "T_")[k // 3 % 4]
-    if k % 5 in (1, 2):
-        kw["start"] = (1, 7)[k % 5 - 1]
+    if k % 5 in (1, 2, 3):
+        kw["start"] = (1, 7, -1)[k % 5 - 1] if k % 2 else (1, 7, -2)[k % 5 - 1]
     tag = (None, "latent_flag")[k // 7 % 2]
     if tag:
         kw["tag"] = tag
